@@ -21,6 +21,24 @@ A case (JSON-able):
                experiment after creation / the iterations and before the reload (what elaunch does after it extracted the
                interface); restore = every RELOADED experiment stores explicitly as well, after it was built, before the next
                reload reads the directory
+  fourth round (directories that ALREADY hold a description / several writers of one directory):
+    reload_mode  how the two reloads open the directory: 'update' (experimentFromInstance, re-stores what it loaded), 'noupdate'
+               (updateInstanceConfiguration=False: nothing may be written), 'auto' (Experiment(dir, is_instance=None): the flavour
+               is chosen by the presence of conf/flowir_instance.yaml)
+    leftover   {'kind': 'foreign'} | {'kind': 'other-run', 'platform', 'files', 'k'}: the PACKAGE directory carries a
+               conf/flowir_instance.yaml before the instance is created - a hand-made description of another experiment, or the one
+               that an earlier run of the same package (other platform / user variables / k more loop iterations) stored
+    rebuild    {'platform', 'files' (absent: keep input/variables.yaml), 'update'}: after the reloads the directory, which holds
+               the description of the first experiment, is opened as a PACKAGE again (what `elaunch --restart <dir> --platform
+               <other>` does: Experiment(ExperimentInstanceDirectory(dir, ignoreExisting=True), platform, updateInstance
+               Configuration=update, is_instance=False)), after input/variables.yaml was replaced when `files` is given; with
+               update the directory is then reloaded twice for that platform
+    overlap    {'a': 'store'|'iterate'|'load', 'b': 'store'|'load', 'at': 'before'|'mid'|'after'}: two OVERLAPPING stores into
+               the directory.  Writer B (the last reloaded experiment storing on request, or a whole experimentFromInstance) is
+               parked inside its store - it has opened the file it writes to and has written nothing / half / all of its text -
+               while writer A (the live experiment: store on request, the next DoWhile iteration, or another complete load of the
+               directory) runs one WHOLE store; then B finishes.  One thread, nested calls: exactly the schedule that two threads
+               parked on Events would produce, deterministically.
 """
 import copy
 import logging
@@ -122,6 +140,176 @@ def _load_stored(ipath):
     return _sorted_components(yaml.safe_load(open(ipath, 'rb').read()))
 
 
+FOREIGN_DESCRIPTION = {
+    'platforms': ['default'], 'variables': {'default': {'global': {'stale': 'yes'}, 'stages': {}}},
+    'blueprint': {'default': {'global': {}, 'stages': {}}}, 'environments': {'default': {}},
+    'application-dependencies': {'default': []}, 'virtual-environments': {'default': []}, 'output': {}, 'interface': None,
+    'status-report': {},
+    'components': [{'stage': 0, 'name': 'stale-component', 'command': {'executable': 'echo', 'arguments': 'left over %(stale)s'}}],
+}
+
+
+def _open_instance(inst, platform, mode):
+    import experiment.model.data
+    import experiment.model.storage
+    if mode == 'auto':
+        d = experiment.model.storage.ExperimentInstanceDirectory(inst)
+        return experiment.model.data.Experiment(d, platform=platform, updateInstanceConfiguration=True, is_instance=None)
+    return experiment.model.data.Experiment.experimentFromInstance(
+        inst, platform=platform, updateInstanceConfiguration=(mode != 'noupdate'))
+
+
+def _sig(ipath):
+    """identity of the file that holds the description: a store (atomic replacement or not) changes it"""
+    try:
+        st = os.stat(ipath)
+        return (st.st_ino, st.st_mtime_ns, st.st_size)
+    except OSError:
+        return None
+
+
+def _hidden(inst):
+    """hidden files next to the description (temporary files that a store left behind)"""
+    return sorted(n for n in os.listdir(os.path.join(inst, 'conf')) if n.startswith('.'))
+
+
+def _iterate(exp, case, F):
+    c5 = case['c05']
+    g = exp.experimentGraph
+    node = g._documents[F.FlowIR.LabelDoWhile]['stage%d.%s' % (c5['S'], c5['dwname'])]
+    g.instantiate_dowhile_next_iteration(node['document'], node['state']['currentIteration'] + 1, True)
+
+
+def _write_user_files(tmp, files, F, tag='vars'):
+    out = []
+    for i, uf in enumerate(files or []):
+        p = os.path.join(tmp, '%s_%d.yaml' % (tag, i))
+        with open(p, 'w') as f:
+            F.yaml_dump(copy.deepcopy(uf), f)
+        out.append(p)
+    return out or None
+
+
+def _err(tag, e):
+    return {'error': '%s:%s' % (tag, type(e).__name__), 'msg': ' '.join(str(e).split())[:600]}
+
+
+def overlap_stores(case, exp, exp_b, inst, ipath, platform, names, F):
+    """two overlapping stores (see the module docstring); returns what the directory holds afterwards"""
+    import experiment.model.data
+    ov = case['overlap']
+    out = {'desc_b': _load_stored(ipath), 'errors': {}}
+    state = {'armed': True, 'parked': False}
+    orig = F.yaml_dump
+
+    def run_a():
+        state['parked'] = True
+        try:
+            if ov['a'] == 'iterate':
+                _iterate(exp, case, F)
+            elif ov['a'] == 'load':
+                experiment.model.data.Experiment.experimentFromInstance(inst, platform=platform)
+            else:
+                exp.configuration.store_unreplicated_flowir_to_disk()
+        except Exception as e:
+            out['errors']['A'] = _err('overlap-A-' + ov['a'], e)
+
+    def hooked(data, stream=None, **kwargs):
+        if state['armed'] and stream is not None and isinstance(data, dict) and 'components' in data:
+            state['armed'] = False
+            if ov['at'] == 'before':
+                run_a()
+                return orig(data, stream, **kwargs)
+            if ov['at'] == 'after':
+                r = orig(data, stream, **kwargs)
+                run_a()
+                return r
+            text = orig(data, None, **kwargs)
+            half = len(text) // 2
+            stream.write(text[:half])
+            run_a()
+            stream.write(text[half:])
+            return None
+        return orig(data, stream, **kwargs)
+
+    F.yaml_dump = hooked
+    try:
+        try:
+            if ov['b'] == 'load':
+                exp_b = experiment.model.data.Experiment.experimentFromInstance(inst, platform=platform)
+            else:
+                exp_b.configuration.store_unreplicated_flowir_to_disk()
+        except Exception as e:
+            out['errors']['B'] = _err('overlap-B-' + ov['b'], e)
+    finally:
+        F.yaml_dump = orig
+    out['parked'] = state['parked']
+    try:
+        out['after'] = _load_stored(ipath)
+    except Exception as e:
+        out['after'] = _err('unreadable', e)
+    # what the directory reloads as (nothing is written by this load)
+    try:
+        out['reload'] = snapshot(experiment.model.data.Experiment.experimentFromInstance(
+            inst, platform=platform, updateInstanceConfiguration=False), names)
+    except Exception as e:
+        out['reload'] = _err('reload', e)
+    out['snap_a'] = snapshot(exp, names)
+    out['snap_b'] = snapshot(exp_b, names) if exp_b is not None else None
+    # the description of writer A, stored alone
+    try:
+        exp.configuration.store_unreplicated_flowir_to_disk()
+        out['desc_a'] = _load_stored(ipath)
+    except Exception as e:
+        out['desc_a'] = _err('store', e)
+    return out
+
+
+def rebuild_in_place(case, inst, ipath, names, tmp, F, fresh):
+    """the directory, which holds a description, is opened as a package again (elaunch --restart --platform <other>)"""
+    import experiment.model.data
+    import experiment.model.storage
+    rb = case['rebuild']
+    out = {}
+    if 'files' in rb:
+        upath = os.path.join(inst, 'input', 'variables.yaml')
+        if os.path.exists(upath):
+            os.remove(upath)
+        if rb['files']:
+            with open(upath, 'w') as f:
+                F.yaml_dump(copy.deepcopy(rb['files'][0]), f)
+    before = open(ipath, 'rb').read()
+    out['stored_before'] = _sorted_components(yaml.safe_load(before))
+    try:
+        d = experiment.model.storage.ExperimentInstanceDirectory(inst, ignoreExisting=True)
+        exp3 = experiment.model.data.Experiment(d, platform=rb['platform'], updateInstanceConfiguration=bool(rb['update']),
+                                                is_instance=False)
+    except Exception as e:
+        # is it the configuration (this package with these user variables on this platform is not a valid experiment: a NEW
+        # instance cannot be created from it either) or the directory?
+        try:
+            fresh(rb['platform'], rb['files'] if 'files' in rb else case.get('files'))
+        except Exception:
+            return {'invalid': type(e).__name__}
+        return _err('rebuild', e)
+    out['snap'] = snapshot(exp3, names)
+    now = open(ipath, 'rb').read()
+    out['same_bytes'] = now == before
+    out['stored'] = _sorted_components(yaml.safe_load(now))
+    out['reloads'] = []
+    out['stored_again'] = []
+    if rb['update']:
+        for _ in range(2):
+            try:
+                exp4 = experiment.model.data.Experiment.experimentFromInstance(inst, platform=rb['platform'])
+            except Exception as e:
+                out['reloads'].append(_err('reload', e))
+                break
+            out['reloads'].append(snapshot(exp4, names))
+            out['stored_again'].append(_load_stored(ipath))
+    return out
+
+
 def drive(case):
     logging.disable(logging.CRITICAL)
     import experiment.model.storage
@@ -170,6 +358,27 @@ def drive(case):
             with open(os.path.join(pkg, 'conf', 'dowhile.yaml'), 'w') as f:
                 yaml.safe_dump(dw, f)
         os.chdir(tmp)
+        lo = case.get('leftover')
+        if lo and not manifest:
+            # the package carries a conf/flowir_instance.yaml: the description of ANOTHER experiment
+            lpath = os.path.join(pkg, 'conf', 'flowir_instance.yaml')
+            if lo['kind'] == 'other-run':
+                try:
+                    os.makedirs(os.path.join(tmp, 'earlier'))
+                    ep0 = experiment.model.storage.ExperimentPackage.packageFromLocation(pkg, platform=lo.get('platform'))
+                    exp0 = experiment.model.data.Experiment.experimentFromPackage(
+                        ep0, location=os.path.join(tmp, 'earlier'), platform=lo.get('platform'),
+                        variable_files=_write_user_files(tmp, lo.get('files'), F, 'earlier_vars'))
+                    for _ in range(lo.get('k') or 0):
+                        _iterate(exp0, case, F)
+                    text = open(os.path.join(exp0.instanceDirectory.location, 'conf', 'flowir_instance.yaml')).read()
+                except Exception as e:
+                    return {'error': 'create-earlier-run:' + type(e).__name__, 'msg': str(e)[:1500]}
+            else:
+                text = yaml.safe_dump(FOREIGN_DESCRIPTION)
+            with open(lpath, 'w') as f:
+                f.write(text)
+            obs['leftover'] = _sorted_components(yaml.safe_load(text))
         try:
             if manifest:
                 ep = experiment.model.storage.ExperimentPackage.packageFromLocation(pkg, manifest=manifest, platform=platform)
@@ -185,15 +394,17 @@ def drive(case):
             return {'error': 'create:no-instance-file'}
         # the description written while the configuration was initialised (before the experiment was built)
         obs['stored_at_creation'] = _load_stored(ipath)
+        # every opening of the directory: [parsed as a package, update requested, a description existed, the file was written]
+        if lo and not manifest:
+            obs['opens'] = [[True, True, True, open(ipath).read() != text]]
+        else:
+            obs['opens'] = [[True, True, False, True]]
         if case['kind'] == 'loop':
             c5 = case['c05']
             g = exp.experimentGraph
-            dw_name = 'stage%d.%s' % (c5['S'], c5['dwname'])
             try:
                 for _ in range(case['k']):
-                    node = g._documents[F.FlowIR.LabelDoWhile][dw_name]
-                    nxt = node['state']['currentIteration'] + 1
-                    g.instantiate_dowhile_next_iteration(node['document'], nxt, True)
+                    _iterate(exp, case, F)
             except Exception as e:
                 return {'error': 'iterate:' + type(e).__name__, 'msg': str(e)[:1500]}
         # the description as the experiment left it by itself (creation / last iteration) ...
@@ -217,9 +428,12 @@ def drive(case):
         same_bytes = []
         again = []
         for _ in range(2):
+            sig = _sig(ipath)
             try:
-                exp2 = experiment.model.data.Experiment.experimentFromInstance(inst, platform=platform)
+                exp2 = _open_instance(inst, platform, case.get('reload_mode') or 'update')
+                obs['opens'].append([False, (case.get('reload_mode') or 'update') != 'noupdate', True, _sig(ipath) != sig])
             except Exception as e:
+                exp2 = None
                 reloads.append({'error': 'reload:' + type(e).__name__, 'msg': str(e)[:1500]})
                 break
             reloads.append(snapshot(exp2, names))
@@ -236,6 +450,25 @@ def drive(case):
         obs['reloads'] = reloads
         obs['same_bytes'] = same_bytes
         obs['stored_again'] = again
+        obs['hidden'] = _hidden(inst)
+        complete = len(reloads) == 2 and not any('error' in r for r in reloads)
+        if case.get('overlap') and complete:
+            obs['overlap'] = overlap_stores(case, exp, exp2, inst, ipath, platform, names, F)
+            obs['overlap']['hidden'] = _hidden(inst)
+        elif case.get('rebuild') and complete:
+            sig = _sig(ipath)
+            def fresh(platform2, files2):
+                os.makedirs(os.path.join(tmp, 'fresh'))
+                kw = {'manifest': manifest} if manifest else {}
+                ep2 = experiment.model.storage.ExperimentPackage.packageFromLocation(pkg, platform=platform2, **kw)
+                return experiment.model.data.Experiment.experimentFromPackage(
+                    ep2, location=os.path.join(tmp, 'fresh'), platform=platform2,
+                    variable_files=_write_user_files(tmp, files2, F, 'fresh_vars'))
+
+            obs['rebuild'] = rebuild_in_place(case, inst, ipath, names, tmp, F, fresh)
+            if 'error' not in obs['rebuild'] and 'invalid' not in obs['rebuild']:
+                obs['opens'].append([True, bool(case['rebuild']['update']), True, _sig(ipath) != sig])
+                # (the two reloads of rebuild_in_place follow the signature taken here: not recorded)
         return obs
     finally:
         try:
